@@ -87,6 +87,19 @@ var nestGens = []nestGen{
 	{"assign-chain-tuple", func(n int) string {
 		return rep("(", n) + "a" + rep(",)", n) + " = " + rep("(", n) + "1" + rep(",)", n) + "\n"
 	}, 6},
+	{"paren-augassign", func(n int) string {
+		return "def f():\n  x = 1\n  " + rep("(", n) + "x" + rep(")", n) + " += 1\n  return x\nr = f()\n"
+	}, 2},
+	{"paren-augassign-index", func(n int) string {
+		return "def f():\n  a = [1, 2]\n  " + rep("(", n) + "a[0]" + rep(")", n) + " += 5\n  " + rep("(", n) + "a" + rep(")", n) + "[1] *= 2\n  return a\nr = f()\n"
+	}, 4},
+	{"paren-assign-targets", func(n int) string {
+		p, q := rep("(", n), rep(")", n)
+		return "def f():\n  " + p + "a, b" + q + " = 1, 2\n  " + p + "c" + q + " = 3\n  [" + p + "d" + q + ", e] = [4, 5]\n  for " + p + "i" + q + " in [1]: pass\n  g = [j for " + p + "j" + q + " in [1]]\n  " + p + "h" + q + " = {}\n  " + p + "h" + q + "[1] = 2\n  return (a, b, c, d, e, g, h)\nr = f()\n"
+	}, 14},
+	{"paren-call-callee", func(n int) string {
+		return "def f(x=1): return x\nr = " + rep("(", n) + "f" + rep(")", n) + "(2) + " + rep("(", n) + "[1]" + rep(")", n) + "[0] + " + rep("(", n) + "\"a\"" + rep(")", n) + ".count(\"a\")\n"
+	}, 6},
 	{"star-args", func(n int) string { return "def f(*a, **k): return 0\nx = f(" + rep("1,", n) + ")\n" }, 2},
 	{"kw-args", func(n int) string {
 		var b strings.Builder
@@ -353,7 +366,12 @@ func (p *pgen) stmt(ind string, d int, inFunc, inLoop bool) {
 			w("pass")
 		}
 	default:
-		w(hx.Pick(r, []string{"load(\"mod\", \"sym\")", "fail(" + p.expr(1) + ")", "def rec(n):\n" + ind + "  return rec(n + 1) if n < 50 else n", "l0 = []\n" + ind + "l0.append(l0)", "s0 = struct(x=v0) if True else None"}))
+		w(hx.Pick(r, []string{"load(\"mod\", \"sym\")", "fail(" + p.expr(1) + ")",
+			"(v0) += 1", "((v0)) = " + p.expr(1), "[pa, [pb, pc]] = [1, [2, 3]]", "(pa, (pb, pc)) = (1, (2, 3))", "pl = [1, 2]\n" + ind + "(pl)[0] += 1\n" + ind + "((pl[1])) -= 1",
+			"pc2 = [x for (x) in [1, 2] for ((y), [z]) in [(x, [x])] if (x)]", "for (pa), [pb] in [(1, [2])]: pass",
+			"pf = lambda *a, **k: (a, k)\n" + ind + "pr = pf(*[1, 2], **{\"k\": 3})", "ps = \"%(a)s-%(b)r\" % {\"a\": " + p.expr(1) + ", \"b\": 2}",
+			"pq = " + p.v() + "[:] if type(" + p.v() + ") in (\"list\", \"string\", \"tuple\") else None", "pd = {k: {k: v} for k, v in [(1, 2), (3, 4)]}",
+			"def pg(a, b = lambda: (lambda: 1)(), *c, d = [x for x in range(2)], **e): return (a, b(), c, d, e)\n" + ind + "pz = pg(0, d = 1, z = 2)", "def rec(n):\n" + ind + "  return rec(n + 1) if n < 50 else n", "l0 = []\n" + ind + "l0.append(l0)", "s0 = struct(x=v0) if True else None"}))
 	}
 }
 
